@@ -28,6 +28,13 @@ import (
 
 var errInjected = errors.New("verif: injected I/O failure")
 
+// morassReuseAfterError (environment VERIF_MORASS_REUSE=1; never set by ./check) makes the
+// caller of a concurrent-mode workload carry on after a reported I/O error as the sequential
+// one does: no call until its next Clear, then the next cycle.  This is outside the model and
+// outside the statements of C12/C13 (notes/C13.md, "Clear and reuse after a reported error");
+// it exists so that the observation recorded there can be reproduced with `harness exec C13`.
+var morassReuseAfterError = os.Getenv("VERIF_MORASS_REUSE") == "1"
+
 var morassParkPoints = map[string]bool{
 	"op": true, "push.send": true, "push.recv": true, "write.recv": true, "write.register": true,
 	"write.encode": true, "write.sync": true, "write.return": true, "finalise.write": true,
@@ -379,12 +386,14 @@ func morassRunWorkOnce(w mWork, watchdog time.Duration) string {
 					}
 				case 'c':
 					tok = morassErrKind(m.Clear()) + "/-"
+				case 'x':
+					tok = morassErrKind(m.Push(mOther("x"))) + "/-"
 				default:
 					panic("morass: bad op " + op)
 				}
 				if strings.HasPrefix(tok, "err:") {
 					skipping = true
-					if w.conc {
+					if w.conc && !morassReuseAfterError {
 						// writers of the failed cycle may still be running and Clear does
 						// not wait for them: the caller gives up altogether
 						stop = true
